@@ -92,6 +92,39 @@ CHECKS = {
         "Trace_Compose follows recorded kernels from random synthetic models and a curated vocabulary on shipped models with the tables as state.",
    design_ref="5/C08, 10.5", technique="TLA+ composition spec with model tables as state + TLC exhaustive + replay on rendered models + batch trace validation",
    note="Open points: untyped store rows (F13), the type of '*'-class register forms, AArch64 rmw through an indexed operand; on AArch64 composition is exercised almost only on synthetic models (real memory instructions have own entries)."),
+
+ "C01": dict(
+   category="model_checking",
+   text="TLC model-checks PortSched (the greedy balancer as a state machine: Uniform, BeginPass, Move, Retire, EndPass with per-micro-op budgets carried across passes) on all kernels <= 2 over single- and two-micro-op forms on every pair of subsets of 3 ports: "
+        "FeasibleAll (Hall condition over unions of micro-op port sets) and TotalsAreColumnSums are invariants; the configuration with the former deviation CapsResetPerPass exhibits the two-pass counterexample. Every emitted kernel is replayed on the code through "
+        "a synthetic YAML model (rows match the Level-B terminal rows exactly); snapshots of random synthetic models (2-6 ports, multi-character names, alternatives) and shipped models x corpus kernels at five stages (uniform, pass 1, pass 2, API and dict/CLI) are validated by TLC (Trace_Port); whole-run traces (Osaca.tla) check totals = column sums.",
+   design_ref="5/C01, 10.6", technique="TLA+ Level-A feasibility (Hall) + Level-B balancer state machine, TLC exhaustive with terminal-state emission, replay, batch trace validation",
+   note="Trusts harness/port_common.py rendering and projection onto the 1/12000 lattice; Level B does not model PickAlternative (alternatives are covered at Level A only)."),
+ "C02": dict(
+   category="model_checking",
+   text="TLC enumerates the 5 355-kernel family with its Hall optimum and model-checks the balancer on it (OptNotWorse, NotBelowHall, Within15: largest gap 0.12 cy after two passes); all 5 355 kernels are replayed on the code and a sample through the real CLI with a synthetic model in a private HOME; "
+        "TLC decides the clauses on observed totals of random synthetic and shipped models.",
+   design_ref="5/C02, 10.6", technique="TLA+ Hall-optimum spec + balancer state machine, TLC exhaustive on the stated family, full replay, batch trace validation",
+   note="Trusts the Hall bound as the exact optimum of the fractional restricted-assignment problem (max-flow/min-cut) and the positional parser of the CLI totals row."),
+ "C11": dict(
+   category="model_checking",
+   text="TLC explores the marker scan exhaustively (MC_Select: prologue/body/epilogue over 11 line kinds incl. look-alike movs and complete/incomplete/wrong marker bytes, 5-8 marker styles, both ISAs: 0.39M states quick, 2.7M thorough) and the --lines expansion (MC_SelectLines); "
+        "every emitted file is rendered in seeded layouts and replayed on parse_file + reduce_to_section / get_line_range / inspect --lines; shipped and random long files and the four input variants (marked / --lines / only-those-lines / noise-inserted) of every shipped kernel x model "
+        "are validated by TLC (Trace_Select); whole-run traces (Osaca.tla) check that the analysed kernel is exactly the selected one.",
+   design_ref="5/C11, 10.7", technique="TLA+ scan machine + declarative kernel definition, exhaustive TLC, emitted-state replay, batch trace validation",
+   note="Trusts the text tables and regex classifier in selrep_common.py, report_parse.py, the recording stand-ins for KernelDG/Frontend; files with a single, repeated or reversed marker are left open."),
+ "C13": dict(
+   category="model_checking",
+   text="TLC explores the report as a block-emitting machine over the flag cube x kernel shapes (MC_Report) and the cell rounding relation on the 1/12000 lattice (MC_ReportCells); all 96 flag combinations are realised by real runs and the emitted value table is injected into really analysed kernels; "
+        "real reports (API + CLI/--yaml-out, all models, fixed/optimal, --ignore-unknown, default arch, large kernels, unknown mnemonics, sums >= 10 and >= 100, LCD time-out) are parsed back and validated clause by clause by TLC (Trace_Report); whole-run traces (Osaca.tla) tie the summary to the graph stage.",
+   design_ref="5/C13, 10.7", technique="TLA+ block machine + cell-rounding relation, exhaustive TLC, replay, batch trace validation of parsed reports",
+   note="Trusts harness/report_parse.py (column layout taken from the report's own header) and the projection to (digits, integer) cells; the LCD time-out warning is not in the statement (only text/dict agreement is Level A)."),
+ "C15": dict(
+   category="model_checking",
+   text="TLC checks WellFormed => CostDefined on a 2 735-shape entry lattice (every injected defect detected and named); well-formed shapes are costed by the real code; every shipped entry, table row and default (12 826, exported by an independent plain-YAML load) is validated by TLC "
+        "(well-formedness, cost = observed average_port_pressure, loaded entry lists = alias-expanded export, --db-check counts = counts TLC computes); the analysis path is run on every loaded entry in thorough.",
+   design_ref="5/C15, 10.6", technique="TLA+ entry well-formedness / cost definitions evaluated by TLC over all exported entries + costing by the real code",
+   note="TLC acts as evaluator of a data property (DESIGN section 8); the syntactic entry encoder in port_common.py is trusted; bdw/csx/skx are skipped as the property says."),
  "C12": dict(
    category="model_checking",
    text="TLC enumerates every ordered pair of register names of both ISAs (MC_RegAlias: equivalence relation, family sizes), "
